@@ -468,16 +468,15 @@ def write_blocks_to_disk(blocks: List[bytes], datadir: str):
     dat_file = open(filepath, "ab")
     for blk in blocks:
         blk_data = MAGIC_START_BYTES + len(blk).to_bytes(4, "little") + blk
-        if len(blk_data) + dat_file.tell() <= MAX_BLOCKFILE_SIZE:
-            dat_file.write(blk_data)
-        else:
+        if len(blk_data) + dat_file.tell() > MAX_BLOCKFILE_SIZE:
             dat_file.close()
             new_blk_no = (
                 int(os.path.split(filepath)[-1].split(".dat")[0].split("blk")[-1]) + 1
             )
-            filename = f"blk{new_blk_no.zfill(5)}.dat"
+            filename = f"blk{str(new_blk_no).zfill(5)}.dat"
             filepath = os.path.join(datadir, filename)
             dat_file = open(filepath, "ab")
+        dat_file.write(blk_data)
     dat_file.close()
 
 
